@@ -468,7 +468,7 @@ void full_case(A3 const &s)
   {
     grid const &cg = g;
     auto const r = fg::make_pos_ref_crange(cg);
-    static_assert(std::is_same_v<decltype((*r.begin()).value()), int const &>);
+    VERIF_TYPE_FACT((std::is_same_v<decltype((*r.begin()).value()), int const &>), "std::is_same_v<decltype((*r.begin()).value()), int const &>");
     bool ok = true;
     bool const ended = walk(r, lim, seen, [&](auto const &el, std::size_t k) {
       if (ok && (k >= g_exp.size() || rd<N>(el.pos()) != g_exp[k] || el.value() != cell_code(static_cast<i64>(k))))
@@ -496,7 +496,7 @@ void full_case(A3 const &s)
   // map: result[p] = f(source[p])
   {
     auto const m = fg::map(g, [](int const v) -> long { return 3L * v + 1; });
-    static_assert(std::is_same_v<std::remove_cvref_t<decltype(m)>, fg::object<long, N>>);
+    VERIF_TYPE_FACT((std::is_same_v<std::remove_cvref_t<decltype(m)>, fg::object<long, N>>), "std::is_same_v<std::remove_cvref_t<decltype(m)>, fg::object<long, N>>");
     if (rd<N>(m.size()) != s || m.end() - m.begin() != content) fail("grid::map|size", "size " + show(N, s) + ": result size " + show(N, rd<N>(m.size())));
     else
       for (i64 k = 0; k < content; ++k)
